@@ -28,6 +28,7 @@ import Verif.Lemmas.MptHistory
 import Verif.Lemmas.MptEncInj
 import Verif.Lemmas.MptEncWitness
 import Verif.Lemmas.MptCanonExamples
+import Verif.Props.C01
 namespace Verif.Props.C02
 open Verif.Mpt
 
@@ -177,5 +178,37 @@ example (H : Bytes → Bytes) (v : Nat) : ¬ Unamb H (cLeaf H v) [] := by
   have := h (Or.inl rfl)
   simp [List.count_append] at this
   omega
+
+
+/-! ### Closing the interface: the map laws are the C01 theorems -/
+
+/-- `MapLaws` holds of the model: every field is a theorem of `Verif.Props.C01`. -/
+theorem mapLaws : MapLaws where
+  lookup_insert := fun _ _ _ _ _ hwf hb => Verif.Props.C01.lookup_insert hwf hb
+  wf_insert := fun _ _ _ _ hwf hb => Verif.Props.C01.wf_insert hwf hb
+  lookup_delete_node := fun _ _ _ _ hwf hd => Verif.Props.C01.lookup_delete_node hwf hd
+  lookup_delete_removed := fun _ _ _ hwf hd => Verif.Props.C01.lookup_delete_removed hwf hd
+  wf_delete := fun _ _ _ _ hwf hd => Verif.Props.C01.wf_delete hwf hd
+  delete_notPresent_iff := fun _ _ _ hwf => Verif.Props.C01.delete_notPresent_iff hwf
+  delete_no_panic := fun _ _ _ hwf => Verif.Props.C01.delete_no_panic hwf
+
+/-- **C02, first sentence, unconditionally**: at a fixed trie version `v`, two histories of inserts, overwrites,
+    deletes (incl. delete-then-reinsert, interior-path values, rejected and failing operations) that end in the same
+    content produce the same trie, hence the same root for every hash function. -/
+theorem C02_history_independent_closed (maxSize v : Nat) (ops₁ ops₂ : List Op)
+    (h : content maxSize ops₁ = content maxSize ops₂) : run maxSize v ops₁ = run maxSize v ops₂ :=
+  C02_history_independent mapLaws maxSize v ops₁ ops₂ h
+
+theorem C02_root_history_independent_closed (H : Bytes → Bytes) (maxSize v : Nat) (ops₁ ops₂ : List Op)
+    (h : content maxSize ops₁ = content maxSize ops₂) :
+    root H (run maxSize v ops₁) = root H (run maxSize v ops₂) :=
+  C02_root_history_independent mapLaws H maxSize v ops₁ ops₂ h
+
+/-- the trie reached by any history is the canonical one for its content: it is `WF`, all origins are `v`, and it
+    looks up exactly the abstract content -/
+theorem C02_run_repr_closed (maxSize v : Nat) (ops : List Op) :
+    WF (run maxSize v ops) ∧ AllOrigin v (run maxSize v ops) ∧
+      ∀ q, lookup (run maxSize v ops) q = content maxSize ops q :=
+  C02_run_repr mapLaws maxSize v ops
 
 end Verif.Props.C02
